@@ -11,6 +11,7 @@ PID = "C04"
 ALLOWED_AXIOMS = ["Classical_Prop.classic", "ClassicalDedekindReals.sig_forall_dec",
                   "ClassicalDedekindReals.sig_not_dec", "FunctionalExtensionality.functional_extensionality_dep"]
 PROFILES = ["debug"]
+SHARD_TIMEOUT = 100         # seconds; a hanging implementation becomes TIMEOUT lines, not a stalled check
 CASES_PER_SHARD = 20      # sessions are expensive on the model: use all cores
 CORRESPONDENCE = ("compile.rs tail flag / run.rs CALL, TCALL, VARARG, ENTER, RET / procedure.rs apply, call/cc, eval "
                   "re-dispatch / prelude.scm derived forms, observed as the maximum stack pointer at instruction "
@@ -260,8 +261,10 @@ def generate(rng, tier):
     for sid in m_ids:
         cases.append(shape_case(shapes[sid], sid, "c04m"))
     # implementation-only long runs n = 100000
+    # (not through call/cc: every capture copies the stack, so a shape that does grow would cost n^2 there)
     nbig = 16 if quick else 320
-    big_ids = rng.sample(range(len(shapes)), min(nbig, len(shapes)))
+    nocc = [i for i, sh in enumerate(shapes) if all(p["kind"] != "callcc" for p in sh["procs"])]
+    big_ids = rng.sample(nocc, min(nbig, len(nocc)))
     for sid in big_ids:
         cases.append(shape_case(shapes[sid], sid, "c04b"))
     dist.update({"shapes": len(shapes), "model_n1000_sessions": len(m_ids), "implementation_only_n100000": len(big_ids),
